@@ -10,8 +10,17 @@ import (
 func init() { subcommands["sff"] = sffMain }
 
 // sffMain: {"op":"funclist","payload":hex} | {"op":"fromperl","name":hex,"src":hex}
+//
+// A result is serialised only AFTER the next call has been made (one behind):
+// what a call returned must not change when the library is used again.
 func sffMain(args []string) {
 	defer out.Flush()
+	var prev func()
+	defer func() {
+		if nil != prev {
+			prev()
+		}
+	}()
 	eachLine(func(m map[string]any) {
 		op, _ := m["op"].(string)
 		res := map[string]any{"i": m["i"]}
@@ -32,17 +41,22 @@ func sffMain(args []string) {
 				)
 			}
 		}()
-		switch {
-		case nil != pan:
-			res["r"] = "panic"
-			res["msg"] = fmt.Sprint(pan)
-		case nil != err:
-			res["r"] = "err"
-			res["msg"] = err.Error()
-		default:
-			res["r"] = "ok"
-			res["out"] = hx(got)
+		if nil != prev {
+			prev()
 		}
-		emit(res)
+		prev = func() {
+			switch {
+			case nil != pan:
+				res["r"] = "panic"
+				res["msg"] = fmt.Sprint(pan)
+			case nil != err:
+				res["r"] = "err"
+				res["msg"] = err.Error()
+			default:
+				res["r"] = "ok"
+				res["out"] = hx(got)
+			}
+			emit(res)
+		}
 	})
 }
